@@ -4,7 +4,10 @@ from drivers import *
 import pure
 
 PWS = [b"", b"\x00", b"a", b"pw", b"password", b"p" * 55, b"q" * 56, b"r" * 63, b"s" * 64, b"t" * 65, b"u" * 200,
-       b"\x00\x01\xfe\xff", "pässwörd-ü".encode(), b"\x00" * 32, b"M", b"N", b"symmetric", b"A", b"B"]
+       b"\x00\x01\xfe\xff", "pässwörd-ü".encode(), b"\x00" * 32, b"M", b"N", b"symmetric", b"A", b"B",
+       # byte strings a normalising implementation would change: non-NFC UTF-8, case, surrounding whitespace, BOM
+       b"cafe\xcc\x81", "caf\u00e9".encode(), "\u212b".encode(), "\u00c5".encode(), "\u2126".encode(), "\u1100\u1161".encode(),
+       b"Password", b"PASSWORD", b" pw", b"pw ", b"pw\n", b"\tpw", b"\xef\xbb\xbfpw", b"pw\x00", b"\xff\xfe", b"\xc3\x28"]
 
 
 def run(ctx):
